@@ -16,6 +16,8 @@ pub struct SupArgs {
     pub workers: usize,
     pub runs: Option<u64>,
     pub verif_dir: String,
+    /// where evidence and replay files go: verif_dir, or a scratch directory when another tree than /repo is under test
+    pub out_dir: String,
     pub emit_fp: bool,
 }
 
@@ -253,9 +255,11 @@ pub fn supervise(a: SupArgs) -> Outcome {
         }
     };
     println!("graphsim: property={} tier={} VERIF_SEED={} engine={}", prop.id(), a.tier.name(), a.seed, crate::pool::ENGINE);
+    let mut a = a;
+    a.out_dir = if crate::core::rt::repo_dir() == "/repo" { a.verif_dir.clone() } else { format!("{}/target/alt-out", a.verif_dir) };
     let total = a.runs.unwrap_or_else(|| prop.runs(a.tier));
     // stale replay files of this property would be mistaken for this run's
-    if let Ok(rd) = std::fs::read_dir(format!("{}/replays", a.verif_dir)) {
+    if let Ok(rd) = std::fs::read_dir(format!("{}/replays", a.out_dir)) {
         for e in rd.flatten() {
             if e.file_name().to_string_lossy().starts_with(&format!("{}-", prop.id())) {
                 let _ = std::fs::remove_file(e.path());
@@ -305,7 +309,7 @@ pub fn supervise(a: SupArgs) -> Outcome {
     let mut known_hits: BTreeMap<String, u64> = BTreeMap::new();
     let mut reported = 0;
     let mut replay_paths: Vec<String> = vec![];
-    let _ = std::fs::create_dir_all(format!("{}/replays", a.verif_dir));
+    let _ = std::fs::create_dir_all(format!("{}/replays", a.out_dir));
     // unknown groups: write the replay files, minimise them in parallel child processes (a candidate may hang or
     // crash), confirm each minimised file in a fresh process, then report
     struct Pending {
@@ -330,7 +334,7 @@ pub fn supervise(a: SupArgs) -> Outcome {
         let best = members.iter().copied().min_by_key(|i| (m.violations[*i].1.ops.len(), m.violations[*i].0)).unwrap();
         let (idx, case, vs) = &m.violations[best];
         let v = vs.iter().find(|v| &v.oracle == oracle && &v.sig == sig).unwrap();
-        let path = format!("{}/replays/{}-{}-{}.json", a.verif_dir, prop.id(), oracle.replace('.', "_"), idx);
+        let path = format!("{}/replays/{}-{}-{}.json", a.out_dir, prop.id(), oracle.replace('.', "_"), idx);
         let path = if pending.iter().any(|p| p.path == path) { format!("{}.{}.json", path.trim_end_matches(".json"), reported) } else { path };
         let rep = crate::replay::Replay { case: case.clone(), oracle: oracle.clone(), sig: sig.clone(), detail: v.detail.clone(), minimised: false, tier: a.tier };
         let _ = std::fs::write(&path, rep.to_json().pretty());
